@@ -1,4 +1,5 @@
 import Mitx.Model.CallState
+import Mitx.Lemmas.Globals
 /-! # C11 — a grader's verdict depends only on its configuration and the current call
 
 State-machine part of the property (the aliasing clauses — author config objects, scopes, process-wide settings —
@@ -123,5 +124,36 @@ theorem log_flag_cleared (s : St p) (hlc : s.logCreated = false) (e : Option Str
       | none => simp [call, hc, hv]
       | some a => by_cases ht : p.textOK i <;> simp [call, hc, hv, baseCall, mkLog, ht]
     · by_cases ht : p.textOK i <;> simp [call, hc, baseCall, mkLog, ht]
+
+/-! ## process-wide settings and the author's configuration objects -/
+
+/-- **The negative-power switch is always restored**: whatever the checking code does — return, raise, even change the
+    switch itself — after `with MathArray.enable_negative_powers(v)` the switch holds its default again. -/
+theorem negative_powers_restored {α : Type} (v : Bool) (body : Bool → Bool × Gl.Beh α) (flag : Bool) :
+    (Gl.withNP v body flag).1 = Gl.defaultNP ∧ (Gl.withNP v body flag).2 = (body v).2 := ⟨rfl, rfl⟩
+
+/-- after any history of MatrixGrader calls (any mix of `negative_powers` settings, returning or raising) the switch is at
+    its default, so the next call — of any grader — starts from the same process-wide state as a fresh process -/
+theorem negative_powers_history {α : Type} (calls : List (Gl.MCall α)) : Gl.runCalls Gl.defaultNP calls = Gl.defaultNP :=
+  Gl.runCalls_from_default calls
+
+/-- without `try/finally` a raising check leaks the grader's setting into the rest of the process -/
+example : (Gl.withNP_noFinally (α := Unit) false (fun b => (b, .raise "boom")) true).1 = false := rfl
+
+/-- **Construction never aliases the author's objects.** `coerce2unicode` returns a value equal to the author's
+    (`shape`: identities erased) in which every list and dictionary — also those nested inside tuples — is a fresh object:
+    if the author's objects have identities below `n`, no mutable container reachable from the copy is reachable from the
+    author's value. Whatever the validators later write *in place* into the copy cannot reach the author's objects. -/
+theorem constructor_no_alias (n : Nat) (v : Gl.PV) (hold : ∀ i ∈ Gl.mutIds v, i < n) :
+    Gl.shape (Gl.coerce n v).2 = Gl.shape v ∧ ∀ i ∈ Gl.mutIds (Gl.coerce n v).2, i ∉ Gl.mutIds v := by
+  refine ⟨Gl.coerce_shape n v, ?_⟩
+  intro i hi hmem
+  have := (Gl.coerce_bounds n v).2 i hi
+  have := hold i hmem
+  omega
+
+/-- the rewrite that returns tuples unchanged is refuted: a list inside a tuple stays the author's own object -/
+example : Gl.mutIds (Gl.coerceKeepTuples 10 (.tuple [.list 3 [.atom "a"], .list 4 [.atom "b"]])).2 = [3, 4] := by decide
+example : Gl.mutIds (Gl.coerce 10 (.tuple [.list 3 [.atom "a"], .list 4 [.atom "b"]])).2 = [10, 11] := by decide
 
 end C11
